@@ -220,7 +220,10 @@ class MultiTaskBCD(BaseSolver):
             else:
                 if W_init is not None:
                     W = W_init.T
-                    XW = np.asfortranarray(X @ W)
+                    # W holds the intercept in its last row when fit_intercept
+                    XW = np.asfortranarray(X @ W[:n_features])
+                    if self.fit_intercept:
+                        XW += W[-1]
                     p0 = max(len(np.where(W[:, 0] != 0)[0]), p0)
                 else:
                     W = np.zeros(
